@@ -34,7 +34,7 @@ def confirm(scratch, ovs, target_dir, h, result, mine, logdir):
     out["playback_test"] = test_src[:6000]
     # native overlay: same flavour unless the harness asks for replay on the real transport
     rflavour = h.get("replay_flavour", "real" if h["flavour"].startswith("real") else "model")
-    rdir = os.path.join(scratch, "replay-" + h["fn"].replace("::", "."))
+    rdir = os.path.join(scratch, "replay-" + ".".join(h["fqn"].split("::")[-3:]))
     files = [os.path.join(VERIF, f) for f in h["files"] if not os.path.basename(f).startswith("GEN:")]
     gen = [os.path.join(scratch, os.path.basename(f)[4:]) for f in h["files"] if os.path.basename(f).startswith("GEN:")]
     # harness file first (its module receives the playback test)
@@ -43,7 +43,7 @@ def confirm(scratch, ovs, target_dir, h, result, mine, logdir):
     hfile = os.path.join(rdir, "verif_harness", "verif_" + os.path.basename(h["files"][0]).replace("GEN:", "").partition("__")[2])
     with open(hfile, "a") as fh:
         fh.write("\n" + test_src + "\n")
-    log = os.path.join(logdir, h["fn"].replace("::", ".") + ".replay.log")
+    log = os.path.join(logdir, ".".join(h["fqn"].split("::")[-3:]) + ".replay.log")
     cmd = ["cargo", "kani", "playback", "-Z", "concrete-playback"]
     if h.get("features") is not None:
         cmd += ["--no-default-features", "--features", ",".join(h["features"])]
